@@ -4,6 +4,7 @@ C20 — the public glue of `odc.geo.math` (`Model/C20Glue.lean`): `Poly2d` const
 -/
 import OdcGeo.Model.C20Glue
 import OdcGeo.Lemmas.C20f
+import OdcGeo.Lemmas.C20g
 import OdcGeo.Props.C20
 
 namespace OdcGeo.C20
@@ -250,6 +251,31 @@ theorem affine_from_pts_normal_exact (X Y : List (Rat × Rat)) (A M : Aff)
   obtain ⟨hl, _, _⟩ := affineFromPts_ok_length h
   exact affine_from_pts_exact lstsqNormal X Y A M (fun M0 h0 => lstsqNormal_minimiser X Y hl h0) hexact p q r hp hq hr
     hnc h
+
+/-- **Solvability**: the Gram determinant of the design matrix `[x y 1]` is positive as soon as three of the source
+points are not collinear, so the normal equations have their (unique) solution: `affine_from_pts` returns, and what it
+returns is a least-squares minimiser — for any targets. -/
+theorem affine_from_pts_normal_total (X Y : List (Rat × Rat)) (hl : X.length = Y.length) (h3 : 3 ≤ X.length)
+    (p q r : Rat × Rat) (hp : p ∈ X) (hq : q ∈ X) (hr : r ∈ X)
+    (hnc : (q.1 - p.1) * (r.2 - p.2) - (q.2 - p.2) * (r.1 - p.1) ≠ 0) :
+    ∃ M, affineFromPts lstsqNormal X Y = .ok M ∧ ∀ M' : Aff, sqResidual M (X.zip Y) ≤ sqResidual M' (X.zip Y) := by
+  obtain ⟨M, hM⟩ := lstsqNormal_isSome Y hp hq hr hnc
+  have hok : affineFromPts lstsqNormal X Y = .ok M := by
+    unfold affineFromPts
+    rw [if_neg (not_not.mpr hl), if_neg (by omega), hM]
+  exact ⟨M, hok, lstsqNormal_minimiser X Y hl hM⟩
+
+/-- **`affine_from_pts` reproduces an exactly affine correspondence — no hypothesis left about the solver or about it
+returning**: equally many sources and targets, at least three, `Y = A·X` exactly, three sources not collinear ⟹ the
+result is `A`. -/
+theorem affine_from_pts_normal_exact_total (X Y : List (Rat × Rat)) (A : Aff) (hl : X.length = Y.length)
+    (h3 : 3 ≤ X.length) (hexact : ∀ q ∈ X.zip Y, A.apply q.1 = q.2)
+    (p q r : (Rat × Rat) × (Rat × Rat)) (hp : p ∈ X.zip Y) (hq : q ∈ X.zip Y) (hr : r ∈ X.zip Y)
+    (hnc : (q.1.1 - p.1.1) * (r.1.2 - p.1.2) - (q.1.2 - p.1.2) * (r.1.1 - p.1.1) ≠ 0) :
+    affineFromPts lstsqNormal X Y = .ok A := by
+  have mem1 : ∀ z : (Rat × Rat) × (Rat × Rat), z ∈ X.zip Y → z.1 ∈ X := fun z hz => (List.of_mem_zip hz).1
+  obtain ⟨M, hok, _⟩ := affine_from_pts_normal_total X Y hl h3 p.1 q.1 r.1 (mem1 p hp) (mem1 q hq) (mem1 r hr) hnc
+  rw [hok, affine_from_pts_normal_exact X Y A M hexact p q r hp hq hr hnc hok]
 
 /-! ## non-vacuity -/
 
